@@ -234,17 +234,22 @@ func c15Judge(c *fw.Ctx, cs c15Case) {
 		return
 	}
 	refsBefore := lg.Refs()
-	nShared := len(cs.Shared)
+	// the actual common prefix (two suffixes that start with byte-identical entries are not diverged)
+	nShared := 0
+	for nShared < len(localBefore) && nShared < len(remoteLog) && localBefore[nShared].ID == remoteLog[nShared].ID {
+		nShared++
+	}
 	localOnly := localBefore[nShared:]
+	remoteOnly := remoteLog[nShared:]
 	// overlap through reference entries
 	lrefs, overlap := map[string]bool{}, false
-	for _, e := range cs.Local {
-		if e.Kind == "ref" {
+	for _, e := range localOnly {
+		if e.Kind == "reference" {
 			lrefs[e.Ref] = true
 		}
 	}
-	for _, e := range cs.Remote {
-		if e.Kind == "ref" && lrefs[e.Ref] {
+	for _, e := range remoteOnly {
+		if e.Kind == "reference" && lrefs[e.Ref] {
 			overlap = true
 		}
 	}
@@ -257,7 +262,7 @@ func c15Judge(c *fw.Ctx, cs c15Case) {
 				c.Violation("local-log-corrupt", map[string]string{"op": "reconcile"}, werr.Error(), cs)
 				return
 			}
-			diverged := len(cs.Local) > 0 && len(cs.Remote) > 0
+			diverged := len(localOnly) > 0 && len(remoteOnly) > 0
 			attrs := map[string]string{"op": "reconcile"}
 			switch {
 			case diverged && overlap:
@@ -277,7 +282,7 @@ func c15Judge(c *fw.Ctx, cs c15Case) {
 					return
 				}
 				c15CheckReplay(c, cs, after, remoteLog, localOnly, localBefore)
-			case len(cs.Remote) > 0: // remote ahead
+			case len(remoteOnly) > 0: // remote ahead
 				if err != nil || !sameIDs(after, remoteLog) {
 					c.Violation("fast-forward-wrong", attrs, fmt.Sprintf("remote is ahead: err=%v, local log has %d entries, remote %d", err, len(after), len(remoteLog)), cs)
 				} else {
@@ -303,7 +308,7 @@ func c15Judge(c *fw.Ctx, cs c15Case) {
 			remoteRefsAfter := rg.Refs()
 			attrs := map[string]string{"op": cs.Op}
 			switch {
-			case len(cs.Local) == 0 && len(cs.Remote) > 0:
+			case len(localOnly) == 0 && len(remoteOnly) > 0:
 				// remote ahead: a local ref may move only to the target of its latest unskipped remote entry
 				skipped := skippedSet(remoteLog)
 				latest := map[string]string{}
@@ -337,7 +342,7 @@ func c15Judge(c *fw.Ctx, cs c15Case) {
 					return
 				}
 				c.Count("sync:remote-ahead", 1)
-			case len(cs.Local) > 0 && len(cs.Remote) == 0:
+			case len(localOnly) > 0 && len(remoteOnly) == 0:
 				// local ahead: pushed together with the refs its unskipped entries name
 				if err != nil {
 					if cs.LocalRefs != "at-entry" {
@@ -450,7 +455,7 @@ func c15CheckReplay(c *fw.Ctx, cs c15Case, after, remoteLog, localOnly, localBef
 
 func runC15(c *fw.Ctx) {
 	r := c.Rand(uint64(1500 + c.Shard))
-	n := c.Pick(80, 3000) / c.NShards
+	n := c.Pick(48, 3000) / c.NShards
 	if n < 2 {
 		n = 2
 	}
